@@ -203,6 +203,7 @@ func (w *vpWatcher) Updates() <-chan Entry { return w.ch }
 func (w *vpWatcher) Stop() {
 	if w.stopYield {
 		vpYield("watch.stop") // stopping a watcher is a call into the client library: optionally a scheduling point
+		vpDelay("watch.stop", 0, 2*time.Second) // ... that may take a while
 	}
 	w.stopped = true
 }
